@@ -252,6 +252,53 @@ theorem chain_last_height (c : List Blk) (hl : Linked zeroId c) (hh : HeightsOK 
   simp only [zeroId] at this
   rw [lastId_eq]; simpa [zeroId] using this
 
+/-- in a chain from the zero identifier the block found at height i+1 is the i-th block -/
+theorem byHeight_chain (c : List Blk) (hl : Linked zeroId c) (hh : HeightsOK c) (i : Nat) (hi : i < c.length) :
+    byHeight c (i + 1) = some c[i] := by
+  have hs := byHeight_isSome c hl hh (i + 1) (by omega) (by omega)
+  cases hb : byHeight c (i + 1) with
+  | none => rw [hb] at hs; cases hs
+  | some b =>
+    obtain ⟨hm, hht⟩ := byHeight_some hb
+    obtain ⟨j, hj, rfl⟩ := List.getElem_of_mem hm
+    have := linked_heights c zeroId hl hh j hj
+    simp only [zeroId] at this
+    have : j = i := by omega
+    subst this; rfl
+
+/-- reading the heights lo … lo+n-1 of a chain returns that slice -/
+theorem uncommittedOf_chain (c : List Blk) (hl : Linked zeroId c) (hh : HeightsOK c) (lo : Nat) (hlo : 1 ≤ lo) :
+    ∀ n, lo - 1 + n ≤ c.length → uncommittedOf c lo n = some ((c.drop (lo - 1)).take n)
+  | 0, _ => by simp [uncommittedOf]
+  | n + 1, hn => by
+    have ih := uncommittedOf_chain c hl hh lo hlo n (by omega)
+    have hi : lo - 1 + n < c.length := by omega
+    have hb := byHeight_chain c hl hh (lo - 1 + n) hi
+    have e : lo - 1 + n + 1 = lo + n := by omega
+    rw [e] at hb
+    unfold uncommittedOf
+    simp only [hb, ih, Option.bind_eq_bind, Option.bind_some, Option.pure_def, Option.some.injEq]
+    have hlen : n < (c.drop (lo - 1)).length := by simp only [List.length_drop]; omega
+    rw [List.take_succ_eq_append_getElem hlen, List.getElem_drop]
+
+theorem frontierId_add (m : Mgr) (b : Blk) : ({ m with pooled := m.pooled ++ [b] } : Mgr).frontierId = b.id := by
+  rw [frontierId_eq]; exact lastIdFrom_concat _ _ _
+
+/-- re-adding a list that links to the manager's frontier succeeds and appends it -/
+theorem addAll_linked : ∀ (bs : List Blk) (m : Mgr), Linked m.frontierId bs →
+    addAll m bs = some { m with pooled := m.pooled ++ bs }
+  | [], m, _ => by simp [addAll]
+  | b :: bs, m, h => by
+    unfold addAll
+    have ha : m.add b = some { m with pooled := m.pooled ++ [b] } := by simp [Mgr.add, h.1]
+    simp only [ha]
+    have := addAll_linked bs { m with pooled := m.pooled ++ [b] } (by rw [frontierId_add]; exact h.2)
+    rw [this]; simp
+
+/-- … and fails as a whole when the first block does not link -/
+theorem addAll_unlinked (b : Blk) (bs : List Blk) (m : Mgr) (h : b.prev ≠ m.frontierId) : addAll m (b :: bs) = none := by
+  simp [addAll, Mgr.add, h]
+
 /-! #### the invariant -/
 
 /-- the confirmed chain is a chain from the zero identifier, and the manager (if any) is built on it -/
